@@ -58,10 +58,18 @@ def corpus_cases():
     return out
 
 
-def explore(pid, cases, rep, nontrivial, extra_checks=()):
+def corpus_applicable(pid, d, t):
+    """a corpus case joins a property's run unless it is outside that property's quantifier"""
+    if d.get("routing", {}).get("use_id_table") is False:
+        return pid == "C12"          # the no-table package branch: text well-formedness only
+    return True
+
+
+def explore(pid, cases, rep, nontrivial, extra_checks=(), keep=None, use_corpus=True):
     """cases: list of (desc, tags).  Returns stats."""
     seen = {common.canon(d) for d, _ in cases}
-    corpus = [(d, t) for d, t in corpus_cases() if common.canon(d) not in seen]
+    corpus = [(d, t) for d, t in (corpus_cases() if use_corpus else []) if common.canon(d) not in seen and corpus_applicable(pid, d, t)
+              and (keep is None or keep(d, t))]
     cases = corpus + list(cases)
     res = common.run_worker("worker_gen", [{"desc": d} for d, _ in cases])
     # the model (extracted Coq pipeline, networkx-mirroring oracle) on the same descriptions
@@ -159,7 +167,7 @@ def standard_run(pid, tier, seed, rep, replay, algos, nontrivial, rule, extra_ca
             cases += extra_cases(tier, seed)
         if keep is not None:
             cases = [(d, t) for d, t in cases if keep(d, t)]
-    stats, dist = explore(pid, cases, rep, nontrivial, extra_checks)
+    stats, dist = explore(pid, cases, rep, nontrivial, extra_checks, keep=keep, use_corpus=replay is None)
     samples = [{"desc": d, "tags": t} for d, t in cases[:: max(1, len(cases) // 3)][:3]]
     rep.coverage.update({
         "evaluations": stats["checked"],
